@@ -62,7 +62,17 @@ def run(chk):
             ht = prog.T(f, h.get("t"))
             if "eval_error" in ht and ht.rstrip().endswith("&") and not ht.startswith("const "):
                 stm = [s for s in h["body"].get("s", [])]
-                pushes = [x for x in walk(h["body"]) if x.get("k") == "call" and x.get("name") in ("push_back", "emplace_back") and "call_stack" in expr_str(prog, f, x.get("obj") or {})]
+                hl = ref_inits(f)
+
+                def is_call_stack(o, depth=0):
+                    o = strip_casts(o or {})
+                    if "call_stack" in expr_str(prog, f, o):
+                        return True
+                    if o.get("k") == "ref" and o.get("rk") == "local" and depth < 3:
+                        v = hl.get(o.get("vid"))
+                        return v is not None and v.get("init") is not None and is_call_stack(v["init"], depth + 1)
+                    return False
+                pushes = [x for x in walk(h["body"]) if x.get("k") == "call" and x.get("name") in ("push_back", "emplace_back") and is_call_stack(x.get("obj"))]
                 reth = [x for x in walk(h["body"]) if x.get("k") == "throw" and x.get("rethrow")]
                 this_arg = pushes and any(y.get("k") == "this" for y in walk(pushes[0]["args"][0]))
                 top = h["body"].get("s", []) if h["body"].get("k") == "block" else [h["body"]]
